@@ -55,7 +55,17 @@ Definition kinds : list kind := [
   mk "text200" 200 (Some (s2b "text/plain")) "hello" (RDecisive 16) ROtherErr;
   mk "html400" 400 (Some (s2b "text/html")) "<html>" (RDecisive 17) (RParse (s2b "<html>"));
   mk "success400" 400 json_ct "{""access_token"":""tok"",""token_type"":""bearer""}"
-     (RDecisive 18) (RParse (s2b "{""access_token"":""tok"",""token_type"":""bearer""}"))
+     (RDecisive 18) (RParse (s2b "{""access_token"":""tok"",""token_type"":""bearer""}"));
+  (* error documents under every non-200 class of status, 2xx and 3xx included: only 200 is success *)
+  mk "pending203" 203 json_ct "{""error"":""authorization_pending""}" RPending ROtherErr;
+  mk "pending201" 201 None "{""error"":""authorization_pending""}" RPending ROtherErr;
+  mk "pending302" 302 json_ct "{""error"":""authorization_pending""}" RPending ROtherErr;
+  mk "slow206" 206 json_ct "{""error"":""slow_down""}" RSlowDown ROtherErr;
+  mk "slow101" 101 None "{""error"":""slow_down""}" RSlowDown ROtherErr;
+  mk "denied202" 202 json_ct "{""error"":""access_denied"",""error_description"":""srv""}"
+     (RDecisive 24) (RServer (s2b "access_denied") (Some (s2b "srv")));
+  mk "success201" 201 json_ct "{""access_token"":""tok"",""token_type"":""bearer""}"
+     (RDecisive 25) (RParse (s2b "{""access_token"":""tok"",""token_type"":""bearer""}"))
 ].
 
 Fixpoint find_kind (name : bytes) (l : list kind) : option kind :=
